@@ -22,6 +22,39 @@ package rpc
 //@   property C07
 //@   ensures result == vsize(v)
 
+// varint decoding: vlen = number of bytes the decoder consumes, vval = decoded value
+//@ pure cont(b []byte, i uint64) bool = b[i] >= 0x80
+//@ pure b7(b []byte, i uint64) uint64 = uint64(b[i]&0x7f) << (7 * i)
+//@ pure vlen(b []byte) uint64 = ite(!cont(b,0), 1, ite(!cont(b,1), 2, ite(!cont(b,2), 3, ite(!cont(b,3), 4, ite(!cont(b,4), 5,
+//@      ite(!cont(b,5), 6, ite(!cont(b,6), 7, ite(!cont(b,7), 8, ite(!cont(b,8), 9, 10)))))))))
+//@ pure vval(b []byte) uint64 = b7(b,0) | ite(!cont(b,0), 0, b7(b,1) | ite(!cont(b,1), 0, b7(b,2) | ite(!cont(b,2), 0,
+//@      b7(b,3) | ite(!cont(b,3), 0, b7(b,4) | ite(!cont(b,4), 0, b7(b,5) | ite(!cont(b,5), 0, b7(b,6) | ite(!cont(b,6), 0,
+//@      b7(b,7) | ite(!cont(b,7), 0, b7(b,8) | ite(!cont(b,8), 0, b7(b,9))))))))))
+// fitsVarint: a complete varint lies inside len(b) (exact weakest precondition of DecodeVarint)
+//@ pure fitsVarint(b []byte) bool = uint64(len(b)) >= vlen(b)
+// fitsLP: a complete length-prefixed field lies inside cap(b) (exact weakest precondition of DecodeBytes/String)
+//@ pure fitsLP(b []byte) bool = fitsVarint(b) && vval(b) <= uint64(cap(b)) && vlen(b)+vval(b) <= uint64(cap(b))
+
+//@ func code.DecodeVarint
+//@   property C07 C08
+//@   requires !isnil(v) && fitsVarint(buf)
+//@   ensures result == vlen(buf) && *v == vval(buf)
+//@   modifies *v
+
+//@ func code.DecodeBytes
+//@   property C07 C08 C11
+//@   requires !isnil(v) && fitsLP(buf)
+//@   ensures result == vlen(buf) + vval(buf)
+//@   ensures arr(*v) == arr(buf) && off(*v) == off(buf) + int(vlen(buf)) && len(*v) == int(vval(buf)) && cap(*v) == cap(buf) - int(vlen(buf))
+//@   modifies *v
+
+//@ func code.DecodeString
+//@   property C07 C08 C11 C06
+//@   requires !isnil(v) && fitsLP(buf)
+//@   ensures result == vlen(buf) + vval(buf)
+//@   ensures arr(*v) == arr(buf) && off(*v) == off(buf) + int(vlen(buf)) && len(*v) == int(vval(buf))
+//@   modifies *v
+
 //@ func checkBuffer
 //@   property C07 C12 C19
 //@   requires 0 <= n && n <= 1<<47
@@ -51,3 +84,53 @@ package rpc
 //@   property C07
 //@   requires u != nil && legalUpgrade(u)
 //@   ensures result == (u.NoRequest == 0 && u.NoResponse == 0 && u.Heartbeat == 0 && u.Stream == 0)
+
+// ---- wire format spec functions (written from the documented formats, not from the code) ----
+// varint: 7 bits per byte, least significant group first, continuation bit 0x80 on all but the last byte
+//@ pure vbyte(x uint64, i uint64) byte = ite(i+1 < vsize(x), byte(x>>(7*i))|0x80, byte(x>>(7*i)))
+//@ pure isVarintAt(b []byte, o uint64, x uint64) bool = forall(i, 0, 10, implies(i < vsize(x), b[o+i] == vbyte(x, i)))
+// length-prefixed bytes: varint length, then the bytes
+//@ pure isLP(b []byte, o uint64, s []byte) bool = isVarintAt(b, o, uint64(len(s))) &&
+//@      forall(k, 0, uint64(len(s)), b[o+vsize(uint64(len(s)))+k] == s[k])
+//@ pure fieldLen(n uint64) uint64 = ite(n > 0, 1+vsize(n)+n, 0)
+// protobuf request: field 1 varint Seq (tag 0x08), 2 bytes Upgrade (0x12), 3 string ServiceMethod (0x1a), 4 bytes Args (0x22);
+// zero / empty fields are omitted. pbReqB(r,k) = wire offset after field k.
+//@ pure pbReqB(r *pbRequest, k int) uint64 = ite(k >= 1 && r.Seq != 0, 1+vsize(r.Seq), 0) +
+//@      ite(k >= 2, fieldLen(uint64(len(r.Upgrade))), 0) + ite(k >= 3, fieldLen(uint64(len(r.ServiceMethod))), 0) +
+//@      ite(k >= 4, fieldLen(uint64(len(r.Args))), 0)
+// one field on the wire at offset o
+//@ pure pbVarintField(b []byte, o uint64, tag byte, x uint64) bool = implies(x != 0, b[o] == tag && isVarintAt(b, o+1, x))
+//@ pure pbBytesField(b []byte, o uint64, tag byte, s []byte) bool = implies(len(s) > 0, b[o] == tag && isLP(b, o+1, s))
+//@ pure pbReqWire(b []byte, r *pbRequest) bool = pbVarintField(b, 0, 0x08, r.Seq) && pbBytesField(b, pbReqB(r,1), 0x12, r.Upgrade) &&
+//@      pbBytesField(b, pbReqB(r,2), 0x1a, r.ServiceMethod) && pbBytesField(b, pbReqB(r,3), 0x22, r.Args)
+//@ pure pbReqSize(r *pbRequest) uint64 = 44 + uint64(len(r.Upgrade)) + uint64(len(r.ServiceMethod)) + uint64(len(r.Args))
+
+//@ func (*pbRequest).Size
+//@   property C07
+//@   requires req != nil
+//@   ensures uint64(result) == pbReqSize(req)
+
+//@ func (*pbRequest).MarshalTo
+//@   property C07 C01
+//@   requires req != nil
+//@   requires arr(buf) != arr(req.Upgrade) && arr(buf) != arr(req.ServiceMethod) && arr(buf) != arr(req.Args)
+//@   ensures implies(uint64(cap(buf)) < pbReqSize(req), result == 0 && err != nil)
+//@   ensures implies(uint64(cap(buf)) >= pbReqSize(req), err == nil && uint64(result) == pbReqB(req, 4) && pbReqWire(buf, req))
+//@   modifies buf[0:pbReqSize(req)]
+//@   loop 1, 2, 3, 4: unroll 10
+//@   cut if.done#1 frame buf[0:]: offset == pbReqB(req, 1) && offset <= 11 && pbVarintField(buf, 0, 0x08, req.Seq)
+//@   cut if.done#2 frame buf[prev(offset):]: offset == pbReqB(req, 2) && prev(offset) <= offset &&
+//@       offset <= 22 + uint64(len(req.Upgrade)) && pbBytesField(buf, prev(offset), 0x12, req.Upgrade)
+//@   cut if.done#3 frame buf[prev(offset):]: offset == pbReqB(req, 3) && prev(offset) <= offset &&
+//@       offset <= 33 + uint64(len(req.Upgrade)) + uint64(len(req.ServiceMethod)) && pbBytesField(buf, prev(offset), 0x1a, req.ServiceMethod)
+//@   cut if.done#4 frame buf[prev(offset):]: offset == pbReqB(req, 4) && prev(offset) <= offset &&
+//@       offset <= 44 + uint64(len(req.Upgrade)) + uint64(len(req.ServiceMethod)) + uint64(len(req.Args)) && pbBytesField(buf, prev(offset), 0x22, req.Args)
+
+// ---- header decoders: safety case (C08): no frame can panic them; accepted fields lie inside the frame ----
+
+//@ func (*pbRequest).Unmarshal
+//@   case safety:
+//@     property C08 C11
+//@     requires req != nil && len(req.Upgrade) == 0 && len(req.ServiceMethod) == 0 && len(req.Args) == 0
+//@     loop 1: invariant offset <= length && sub(req.Upgrade, data) && sub(req.ServiceMethod, data) && sub(req.Args, data)
+//@     ensures implies(err == nil, sub(req.Upgrade, data) && sub(req.ServiceMethod, data) && sub(req.Args, data))
